@@ -203,8 +203,9 @@ def run(args, files, keep=False, stdin=None):
     cwd = os.getcwd()
     os.chdir(d)
     r = Result()
-    out_b = io.BytesIO()
-    out = io.TextIOWrapper(out_b, encoding="ascii", write_through=True)
+    # a real file behind sys.stdout: writing "-" goes through xopen, which wants a file descriptor
+    out_f = open(os.path.join(d, "__stdout__"), "w+b")
+    out = io.TextIOWrapper(out_f, encoding="ascii", write_through=True)
     err = io.StringIO()
     old = (sys.stdout, sys.stderr, sys.stdin)
     sys.stdout, sys.stderr = out, err
@@ -224,11 +225,18 @@ def run(args, files, keep=False, stdin=None):
         os.chdir(cwd)
     r.log = list(h.records)
     r.stderr = err.getvalue()
-    r.stdout = out_b.getvalue()
+    try:
+        out.flush()
+        out_f.seek(0)
+        r.stdout = out_f.read()
+        out_f.close()
+    except ValueError:
+        with open(os.path.join(d, "__stdout__"), "rb") as f2:
+            r.stdout = f2.read()
     r.report = "\n".join(m for l, m in r.log if l == REPORT_LEVEL)
     r.files = {}
     for n in sorted(os.listdir(d)):
-        if n in files:
+        if n in files or n == "__stdout__":
             continue
         p = os.path.join(d, n)
         if os.path.isfile(p):
